@@ -34,7 +34,7 @@ ASSUMPTIONS = [
     "a window is (t - interval, t]: two messages exactly one interval apart are not in the same window",
 ]
 MIN_NONTRIVIAL = {"quick": 2000, "thorough": 20000}
-REQUIRED_COUNTERS = ["decisions", "refusals", "growth_runs", "growth_runs_exempt", "integration.commands"]
+REQUIRED_COUNTERS = ["decisions", "refusals", "growth_runs", "growth_runs_exempt", "integration.commands", "integration.refused_closes"]
 SHARD_TIMEOUT = {"quick": 500, "thorough": 3000}
 
 A1, A2, AS4, AS6 = "10.0.0.1", "10.0.0.2", "10.9.9.9", "2001:db8::1"
@@ -364,6 +364,40 @@ def run_integration(spec, counters, viols, nontrivial):
             if nsubs != 4 - refused_reqs:
                 viols.append({"key": "integration/refused-req-subscribed", "msg": "%d REQs refused, yet %d subscriptions are open" % (refused_reqs, nsubs), "replay": {"mode": "integration"}})
             nontrivial.append(h(["integration", len(refused_events), refused_reqs]))
+            # a refused command has NO effect - also a refused CLOSE: its subscription stays open and served
+            lim3 = rate_limiter.RateLimiter({"ip": {"CLOSE": "2/m", "REQ": "100/s"}})
+            c3 = rig.connect("rl-close", rate_limiter=lim3, addr="10.0.0.3")
+            pubc = rig.connect("rl-pub", addr="10.0.0.4")
+            for i in range(4):
+                await c3.cmd(["REQ", "c%d" % i, {"kinds": [7], "since": 1700001000}])
+            await rig.quiesce()
+            calls3 = []
+            orig3 = lim3.is_limited
+
+            def counted3(addr, message):
+                v = orig3(addr, message)
+                calls3.append((message[0], message[1] if len(message) > 1 else None, v))
+                return v
+
+            lim3.is_limited = counted3
+            for i in range(4):
+                await c3.cmd(["CLOSE", "c%d" % i])
+            await rig.quiesce()
+            refused = [sid for cmd, sid, v in calls3 if cmd == "CLOSE" and v]
+            admitted = [sid for cmd, sid, v in calls3 if cmd == "CLOSE" and not v]
+            integ["refused_closes"] = len(refused)
+            open_now = set(rig.subs_of(c3).keys())
+            m0 = rig.rec.n
+            live = ref.make_event(key, kind=7, created_at=1700002000, content="after the CLOSEs")
+            await pubc.cmd(["EVENT", live])
+            await rig.quiesce()
+            got = {f[1] for _, f in c3.parsed_frames(m0) if isinstance(f, list) and len(f) > 2 and f[0] == "EVENT" and f[2].get("id") == live["id"]}
+            nontrivial.append(h(["integration", "refused-close", len(refused)]))
+            if len(refused) != 2 or len(admitted) != 2:
+                viols.append({"key": "integration/close-limit", "msg": "CLOSE 2/m with four CLOSEs at once: limiter admitted %s refused %s" % (admitted, refused), "replay": {"mode": "integration"}})
+            elif got != set(refused) or open_now != set(refused):
+                viols.append({"key": "integration/refused-close-had-effect", "msg": "CLOSE of %s was refused by the limiter (NOTICE rate-limited), yet the subscriptions still open are %s and the live event reached %s"
+                              % (refused, sorted(open_now), sorted(got)), "replay": {"mode": "integration"}})
             # ACCEPT: the real NostrAPI.on_websocket with a stub websocket
             import falcon
             from nostr_relay import web
